@@ -77,7 +77,39 @@ func writeTape(path string, out sym.Outcome) error {
 }
 
 // nativeReplay runs the listed tapes through `go test -overlay` against the real build.
+// nativeReplay runs the entries through the native replay test. Entries that expect a data race are
+// run separately, one process each, under the Go race detector (`go test -race`): a "DATA RACE"
+// report in the output is the confirmation.
 func nativeReplay(prog *sym.Program, entries []replayEntry, timeout time.Duration) (map[string]replayResult, string, error) {
+	var plain, racy []replayEntry
+	for _, e := range entries {
+		if strings.HasPrefix(e.Msg, "data race:") {
+			racy = append(racy, e)
+		} else {
+			plain = append(plain, e)
+		}
+	}
+	res, out, err := nativeReplayRun(prog, plain, timeout, false)
+	if err != nil {
+		return res, out, err
+	}
+	for _, e := range racy {
+		e.Repeat = 200
+		r, o, err := nativeReplayRun(prog, []replayEntry{e}, 10*time.Minute, true)
+		out += o
+		if err != nil {
+			return res, out, err
+		}
+		got := r[e.ID]
+		if strings.Contains(o, "WARNING: DATA RACE") {
+			got = replayResult{ID: e.ID, Harness: e.Harness, Kind: "race", Msg: "data race reported by the Go race detector"}
+		}
+		res[e.ID] = got
+	}
+	return res, out, nil
+}
+
+func nativeReplayRun(prog *sym.Program, entries []replayEntry, timeout time.Duration, race bool) (map[string]replayResult, string, error) {
 	res := map[string]replayResult{}
 	if len(entries) == 0 {
 		return res, "", nil
@@ -107,7 +139,11 @@ func nativeReplay(prog *sym.Program, entries []replayEntry, timeout time.Duratio
 	if err := os.WriteFile(listPath, listData, 0o644); err != nil {
 		return nil, "", err
 	}
-	cmd := exec.Command("go", "test", "-v", "-vet=off", "-count=1", "-run", "^TestVerifReplay$", "-timeout", fmt.Sprintf("%ds", int(timeout.Seconds())), "-overlay", ovPath, ".")
+	args := []string{"test", "-v", "-vet=off", "-count=1", "-run", "^TestVerifReplay$", "-timeout", fmt.Sprintf("%ds", int(timeout.Seconds())), "-overlay", ovPath}
+	if race {
+		args = append(args, "-race")
+	}
+	cmd := exec.Command("go", append(args, ".")...)
 	cmd.Dir = filepath.Join(prog.RepoDir, "larking")
 	cmd.Env = append(os.Environ(), "GOFLAGS=-mod=mod", "GOPROXY=off", "GOSUMDB=off", "GOTOOLCHAIN=local", "VERIF_REPLAY_LIST="+listPath)
 	var buf bytes.Buffer
@@ -162,6 +198,9 @@ func sameOutcome(exp replayEntry, got replayResult) bool {
 		}
 		return strings.Join(exp.Covers, ",") == strings.Join(got.Covers, ",")
 	case "violation":
+		if strings.HasPrefix(exp.Msg, "data race:") {
+			return got.Kind == "race"
+		}
 		if strings.HasPrefix(exp.Msg, "deadlock:") {
 			// the engine reports a deadlock from its scheduler, the native run from the harness's watchdog
 			return got.Kind == "violation" && strings.HasPrefix(got.Msg, "deadlock:")
@@ -275,6 +314,20 @@ func cmdCheck(args []string) int {
 			return 2
 		}
 		fmt.Println(res.Summary())
+		if hs.MustViolate != "" {
+			found := false
+			for _, v := range res.Violations {
+				if strings.Contains(v.Msg, hs.MustViolate) {
+					found = true
+				}
+			}
+			if !found {
+				problems = append(problems, fmt.Sprintf("%s: engine self-validation failed: no violation containing %q was found", hs.Name, hs.MustViolate))
+			}
+			res.Violations = nil
+			sums = append(sums, hsum{res: res, spec: hs})
+			continue
+		}
 		s := hsum{res: res, spec: hs}
 		for _, c := range hs.Covers {
 			if _, ok := res.CoverSamples[c]; !ok {
